@@ -574,6 +574,30 @@ func (e *CEnv) evalCall(n *CCall) (CV, error) {
 			}
 		}
 		return CV{}, cerr("has() on non-map")
+	case "isfunc": // isfunc(f, "pkg/path.Name"): the function value f is that package-level function
+		if len(n.Args) != 2 {
+			return CV{}, cerr("isfunc(f, \"pkg/path.Name\")")
+		}
+		fv, err := e.Eval(n.Args[0])
+		if err != nil {
+			return CV{}, err
+		}
+		lit, ok := n.Args[1].(*CStr)
+		if !ok {
+			return CV{}, cerr("isfunc needs a string literal")
+		}
+		i := strings.LastIndex(lit.Val, ".")
+		if i < 0 {
+			return CV{}, cerr("isfunc: %q is not pkg/path.Name", lit.Val)
+		}
+		for _, sp := range w.Prog.AllPackages() {
+			if sp.Pkg.Path() == lit.Val[:i] {
+				if fn, ok := sp.Members[lit.Val[i+1:]].(*ssa.Function); ok {
+					return CV{T: Eq(fv.T, w.FuncRef(fn))}, nil
+				}
+			}
+		}
+		return CV{}, cerr("isfunc: function %s not found", lit.Val)
 	case "rangeof": // rangeof(i): the map ranged over by the i-th `for ... range <map>` of the function (source order); loop invariants only
 		if len(n.Args) != 1 || e.frame == nil {
 			return CV{}, cerr("rangeof(i) is only available in loop invariants")
@@ -870,6 +894,15 @@ func (e *CEnv) coerceTo(v CV, s Sort) Term {
 
 // evalAddr evaluates x.f to the address of field f.
 func (e *CEnv) evalAddr(x CExpr) (CV, error) {
+	if id, isID := x.(*CIdent); isID && e.frame != nil {
+		// addr(v): the cell of an address-taken local variable (loop invariants)
+		if ent, ok := e.frame.env[id.Name]; ok && ent.isAddr {
+			if t, ok := e.frame.regs[ent.v]; ok {
+				return CV{T: t, GoT: ent.v.Type()}, nil
+			}
+		}
+		return CV{}, cerr("addr(%s): not an address-taken local", id.Name)
+	}
 	sel, ok := x.(*CSel)
 	if !ok {
 		return CV{}, cerr("addr() needs a field selection")
